@@ -60,16 +60,17 @@ pub open spec fn state_matches(r: store::PaymentState, w: World) -> bool {
       !(store_of(*old(w)) is Succeeded)
 //@ ensures#env
       rely_env(World { attempted: true, ..*old(w) }, *final(w)) && final(w).attempted
-//@ ensures#frame [C14]
-      ds_only_hash_keys_changed(*old(w), *final(w))
 //@ ensures#inv [C08]
       inv(*final(w))
 //@ ensures#ok_means_pending_is_durable [C08,C05,C02]
       r is Ok ==> (store_of(*final(w)) is Pending && store_gen(*final(w)) == r->Ok_0.state_generation as int)
+//@ ensures#only_the_attempt_record_write_can_be_rejected [C09]
+//    absent faults the in-flight marker write itself always succeeds (create-or-replace): an error
+//    can only come from the attempt record, after the marker is durable -- no stored image makes
+//    a hash unpayable
+      (r is Err && !final(w).faulted) ==> store_of(*final(w)) is Pending
 //@ ensures#err_leaves_old_or_pending [C08,C09]
       r is Err ==> (store_of(*final(w)) == store_of(*old(w)) || store_of(*final(w)) is Pending)
-//@ ensures#no_fault_means_ok [C09]
-      (!final(w).faulted && !(store_of(*old(w)) is Garbage)) ==> r is Ok
 //@ end
 
 //@ fn store::Datastore::mark_failed
@@ -89,8 +90,6 @@ pub open spec fn state_matches(r: store::PaymentState, w: World) -> bool {
       store_gen(*old(w)) == attempt_id.state_generation as int ==> (!live(*old(w)) && !old(w).pay_running)
 //@ ensures#env
       rely_env(*old(w), *final(w))
-//@ ensures#frame [C14]
-      ds_only_hash_keys_changed(*old(w), *final(w))
 //@ ensures#inv [C08]
       inv(*final(w))
 //@ ensures#ok_means_free [C09,C11]
@@ -119,8 +118,6 @@ pub open spec fn state_matches(r: store::PaymentState, w: World) -> bool {
       old(w).complete == Some(preimage@)
 //@ ensures#env
       rely_env(*old(w), *final(w))
-//@ ensures#frame [C14]
-      ds_only_hash_keys_changed(*old(w), *final(w))
 //@ ensures#inv [C08]
       inv(*final(w))
 //@ end
@@ -151,6 +148,9 @@ pub open spec fn state_matches(r: store::PaymentState, w: World) -> bool {
 //    lowest expiry among the HTLCs held when the payment was initiated - height known - safety delta
       req.max_cltv_delta as int <= max0(old(w).min_expiry_read - old(w).height_read - old(w).cltv_delta as int)
       && req.max_cltv_delta as int <= old(w).pol_delta as int
+//@ requires#height_is_the_one_known_at_initiation [C04]
+//    the height used is not older than the best height known when the payment was initiated
+      old(w).height_read >= old(w).height_at_init
 //@ requires#amount_rule [C03]
 //    the invoice's own amount for fixed-amount invoices, exactly the declared amount otherwise
       req.amount_msat == (if old(w).inv_amount is Some { None::<u64> } else { Some(old(w).amount) })
